@@ -358,6 +358,32 @@ def u_data(root):
             e.write_field(st, me_, "_nexus", RecNexus())
             return {"new_data": Part("given_container")}
         eng.verify(cls, "_set_new_data", None, init, contract=c, tag=f"[{cls}]")
+    # (1b) ... and given raw values (arrays, a numpy histogram): a NEW container is built from them and wired the same way
+    raw_ctor = {"XYFit": "XYContainer", "IndexedFit": "IndexedContainer", "HistFit": "HistContainer", "UnbinnedFit": "UnbinnedContainer"}
+    for cls in CLASSES:
+        made = []
+        eng.consts[raw_ctor[cls]] = Fn(lambda e, st, a, kw, made=made, cls=cls: (made.append((a, kw)), Part("built_" + raw_ctor[cls], {"set_bins": Fn(lambda e_, st_, a_, kw_: VNone())}))[1])
+        eng.lib["isinstance"] = lambda e, st, a, kw, node: VBool(z3.BoolVal(False))          # raw values are no container
+        eng.lib["len"] = lambda e, st, a, kw, node: VNum(z3.IntVal(len(a[0].items))) if isinstance(a[0], VTuple) else VNum(a[0].len) if isinstance(a[0], VSeq) else lib.lib_len(e, st, a, kw, node)
+        c = Contract(cls, "_set_new_data")
+
+        def post(vw, cls=cls, made=made):
+            cont = vw.f(vw.post, vw.self, "_data_container")
+            wired = [x for x in fx(vw, "set") if x[2] == "_on_error_change_callback"]
+            return [("a new container is built from the raw values and installed", z3.BoolVal(len(made) == 1 and isinstance(cont, Part) and cont.name == "built_" + raw_ctor[cls])),
+                    ("changes of ITS sources are delivered to this fit's _on_error_change too", z3.BoolVal(len(wired) == 1 and isinstance(cont, Part) and wired[0][1] == cont.name and isinstance(wired[0][3], VBound) and wired[0][3].name == "_on_error_change" and wired[0][3].recv.e is vw.self.e)),
+                    ("the data node(s) are marked for update", z3.BoolVal(data_nodes[cls] <= set(marked(vw))))]
+        c.ensures.append(post)
+        edges = VSeq(z3.Const("raw_edges", arr(I, R)), z3.Int("n_bins") + 1)
+        raw = {"XYFit": VTuple([VSeq.fresh("raw_x"), VSeq.fresh("raw_y")]), "IndexedFit": VSeq.fresh("raw_values"), "UnbinnedFit": VSeq.fresh("raw_entries"),
+               "HistFit": VTuple([VSeq(z3.Const("raw_heights", arr(I, R)), z3.Int("n_bins")), edges])}[cls]
+
+        def init(e, st, me_, raw=raw):
+            st.assume(z3.Int("n_bins") >= 1)
+            e.write_field(st, me_, "_nexus", RecNexus())
+            return {"new_data": raw}
+        eng.verify(cls, "_set_new_data", None, init, contract=c, tag=f"[{cls}, raw values]")
+    eng.lib["isinstance"] = lambda e, st, a, kw, node: VBool(z3.BoolVal(isinstance(a[0], Part) and ast.unparse(node.args[1]) == "self.CONTAINER_TYPE"))
     # (2) the setter
     for cls in CLASSES:
         wanted = set(axes_names(eng, cls, ("", "_error", "_cov_mat")))
@@ -371,7 +397,8 @@ def u_data(root):
                     trace = fx(vw)
                     cont, model = vw.f(vw.post, vw.self, "_data_container"), vw.f(vw.post, vw.self, "_param_model")
                     if not compatible:
-                        out = [("data the cost function cannot handle is rejected", z3.BoolVal(vw.flow == "raise")), ("no new parametric model is built and nothing is marked", z3.BoolVal(not fx(vw, "new_model") and not marked(vw)))]
+                        out = [("data the cost function cannot handle is rejected", z3.BoolVal(vw.flow == "raise")), ("no new parametric model is built and nothing is marked", z3.BoolVal(not fx(vw, "new_model") and not marked(vw))),
+                               ("the minimizer keeps its results and its cost target (a rejected assignment leaves the fit as it was)", z3.BoolVal(not [x for x in trace if x[1] == "fitter" and x[0] in ("call", "set")]))]
                         if had_data:
                             out.append(("the previous container is installed again", z3.BoolVal(isinstance(cont, Part) and cont.name == "container_of:old_container")))
                         return out
@@ -915,6 +942,12 @@ def u_readback(root):
     return eng
 
 
+def _shared_ga_gof(root):
+    from . import c10
+    return c10.u_gof_gauss_approx(root)
+
+
 def units(root):
-    return [Unit("_init_nexus registry of the four fit types", u_registry), Unit("uncertainty sources: container -> fit -> graph", u_sources), Unit("data replacement", u_data), Unit("parameter constraints", u_constraints), Unit("parameter mutators", u_parameters), Unit("NexusFitter records of fixed / limited parameters", u_fitter_books),
+    return [Unit("CostFunction_GaussApproximation.goodness_of_fit restores the cost function object (shared with C10: reading the goodness of fit must not change the cost)", _shared_ga_gof),
+            Unit("_init_nexus registry of the four fit types", u_registry), Unit("uncertainty sources: container -> fit -> graph", u_sources), Unit("data replacement", u_data), Unit("parameter constraints", u_constraints), Unit("parameter mutators", u_parameters), Unit("NexusFitter records of fixed / limited parameters", u_fitter_books),
             Unit("public read-only properties: frame", u_reads), Unit("MinimizerIMinuit.minimize reads results back from the back end", u_readback, bounded="2 parameters (the write-back loop is unrolled); cached / uncached values and uncertainties at entry"), Unit("freeze / unfreeze protocol and node lists", u_freeze), Unit("do_fit typestate for any number of refits (ghost bracket state, loop invariant)", u_do_fit_proof), Unit("do_fit typestate (balanced brackets)", u_do_fit, bounded="iterative refits unrolled to at most 2 passes (the loop body is one bracket); freeze lists, flags and cost kinds enumerated")]
